@@ -15,10 +15,10 @@ package maurl
 //@   property C20
 //@   ghost unesc := ""
 //@   ghost unescErr := true
-//@   at call QueryUnescape#1: after ghost unesc := result0
-//@   at call QueryUnescape#1: after ghost unescErr := result1 != nil
-//@   at call PathUnescape#1: after ghost unesc := result0
-//@   at call PathUnescape#1: after ghost unescErr := result1 != nil
+//@   at call QueryUnescape: after ghost unesc := result0
+//@   at call QueryUnescape: after ghost unescErr := result1 != nil
+//@   at call PathUnescape: after ghost unesc := result0
+//@   at call PathUnescape: after ghost unescErr := result1 != nil
 //@   loop 1: invariant pm != nil && isfresh(pm)
 //@   ensures-local result1 == nil ==> result0 != nil
 //@   ensures-local result1 == nil ==> str(result0.Scheme) == schemeOf(has(pm, multiaddr.P_HTTPS), has(pm, multiaddr.P_HTTP), has(pm, multiaddr.P_TLS), has(pm, multiaddr.P_WSS), has(pm, multiaddr.P_WS))
@@ -26,8 +26,8 @@ package maurl
 //@   ensures-local result1 == nil ==> (has(pm, multiaddr.P_HTTP_PATH) || has(pm, oldProtoHTTPath.Code)) ==> str(result0.Path) == ite(unescErr, str(""), str(unesc))
 //@   ensures-local result1 == nil ==> has(pm, multiaddr.P_HTTP_PATH) ==> count("call:QueryUnescape") == 1 && count("call:PathUnescape") == 0
 //@   ensures-local result1 == nil ==> !has(pm, multiaddr.P_HTTP_PATH) && has(pm, oldProtoHTTPath.Code) ==> count("call:PathUnescape") == 1 && count("call:QueryUnescape") == 0
-//@   at call QueryUnescape#1: assert has(pm, multiaddr.P_HTTP_PATH) && str(arg0) == str(pm[multiaddr.P_HTTP_PATH])
-//@   at call PathUnescape#1: assert str(arg0) == str(pm[oldProtoHTTPath.Code])
+//@   at call QueryUnescape: assert has(pm, multiaddr.P_HTTP_PATH) && str(arg0) == str(pm[multiaddr.P_HTTP_PATH])
+//@   at call PathUnescape: assert str(arg0) == str(pm[oldProtoHTTPath.Code])
 
 // FromURL: host component, then tcp(port) iff a port is given, then the scheme
 // component, then http-path(PathEscape(path)) iff the path is non-empty.
@@ -35,12 +35,12 @@ package maurl
 //@   property C20
 //@   requires u != nil
 //@   ghost port := ""
-//@   at call Port#1: after ghost port := result
+//@   at call Port: after ghost port := result
 //@   ensures-local result1 == nil && str(port) != str("") && str(u.Path) != str("") ==> count("call:Join") == 3 && count("call:QueryEscape") == 1
 //@   ensures-local result1 == nil && str(port) != str("") && str(u.Path) == str("") ==> count("call:Join") == 2 && count("call:QueryEscape") == 0
 //@   ensures-local result1 == nil && str(port) == str("") && str(u.Path) != str("") ==> count("call:Join") == 2 && count("call:QueryEscape") == 1
 //@   ensures-local result1 == nil && str(port) == str("") && str(u.Path) == str("") ==> count("call:Join") == 1 && count("call:QueryEscape") == 0
-//@   at call QueryEscape#1: assert arg0 == u.Path
+//@   at call QueryEscape: assert arg0 == u.Path
 
 //@ func pathVal
 //@   property C20
